@@ -374,6 +374,8 @@ struct diff_key {
 		if (diff_policy.absolute) {                                                        \
 			diff_a = (diff_a > 0) ? diff_a : -diff_a;                                  \
 			diff_b = (diff_b > 0) ? diff_b : -diff_b;                                  \
+			if (diff_a == diff_b)                                                      \
+				return 0;                                                          \
 		}                                                                                  \
 		return diff_a > diff_b ? 1 : -1;                                                   \
 	}                                                                                          \
@@ -396,6 +398,8 @@ struct diff_key {
 		if (diff_policy.absolute) {                                                        \
 			pcnt_a = (pcnt_a > 0) ? pcnt_a : -pcnt_a;                                  \
 			pcnt_b = (pcnt_b > 0) ? pcnt_b : -pcnt_b;                                  \
+			if (pcnt_a == pcnt_b)                                                      \
+				return 0;                                                          \
 		}                                                                                  \
 		return pcnt_a > pcnt_b ? 1 : -1;                                                   \
 	}                                                                                          \
